@@ -272,7 +272,10 @@ def run_candidate(c):
         kind = c["kind"]
         obs = {}
         bad = []
-        if kind == "cli":
+        if kind == "bounded_pair":
+            import bounded
+            bad, obs = bounded.replay_pair(binp, c["original_text"], c["transformed_text"], c.get("fold_case", False))
+        elif kind == "cli":
             # the command-line contract itself (C13) on a list of invocations: exit status, the line OK and the coded
             # diagnostics on stderr must agree; optionally the expected status and "same verdict as run k"
             runs = []
